@@ -45,6 +45,7 @@ VARIABLES
   mem,       \* the operation's in-memory row-group list: Seq([p, g])
   plan,      \* remaining steps of the operation in progress
   opk,       \* kind of the operation in progress ("none" when idle)
+  arg,       \* its frame argument (sequence of chunks), <<>> if none
   model,     \* CONTRACT: plain model of the content, Seq([k, g]) in insertion order
   pending,   \* model value to install if the operation returns normally
   ng,        \* row groups ever written
@@ -55,7 +56,7 @@ VARIABLES
   early,     \* ghost: the summary was opened for writing while a planned part file was not complete
   ordered    \* every operation so far promised order (write/append only)
 
-vars == <<disk, dirs, mem, plan, opk, model, pending, ng, nops, calls, faultAt, touched, last, badOpen, early, ordered>>
+vars == <<disk, dirs, mem, plan, opk, arg, model, pending, ng, nops, calls, faultAt, touched, last, badOpen, early, ordered>>
 
 ----------------------------------------------------------------------------
 (* helpers on sequences *)
@@ -172,12 +173,12 @@ KeyOf(e) == e.p.k
 
 ----------------------------------------------------------------------------
 Init ==
-  /\ disk = <<>> /\ dirs = {} /\ mem = <<>> /\ plan = <<>> /\ opk = "none" /\ model = <<>> /\ pending = <<>>
+  /\ disk = <<>> /\ dirs = {} /\ mem = <<>> /\ plan = <<>> /\ opk = "none" /\ arg = <<>> /\ model = <<>> /\ pending = <<>>
   /\ ng = 0 /\ nops = 0 /\ calls = 0 /\ faultAt = 0 /\ touched = FALSE /\ last = "none"
   /\ badOpen = FALSE /\ early = FALSE /\ ordered = TRUE
 
-Begin(kind, steps, newmodel, keepOrder, m0) ==
-  /\ opk' = kind /\ plan' = steps /\ pending' = newmodel /\ mem' = m0
+Begin(kind, steps, newmodel, keepOrder, m0, fr) ==
+  /\ opk' = kind /\ arg' = fr /\ plan' = steps /\ pending' = newmodel /\ mem' = m0
   /\ nops' = nops + 1 /\ calls' = 0 /\ touched' = FALSE
   /\ ordered' = (ordered /\ keepOrder)
   /\ UNCHANGED <<disk, dirs, model, ng, last, badOpen, early>>
@@ -192,7 +193,7 @@ BeginWrite(frame, part) ==
   /\ faultAt' = 0
   /\ LET parts == FrameSteps(frame, 1, 0, ng + 1, part)
          steps == <<Step("mkdirroot", <<>>)>> \o (IF SummaryFirst THEN SummarySteps \o parts ELSE parts \o SummarySteps)
-     IN Begin("write", steps, FrameGroups(frame, 1, ng + 1, part), TRUE, <<>>)
+     IN Begin("write", steps, FrameGroups(frame, 1, ng + 1, part), TRUE, <<>>, frame)
 
 (* write(dir, frame, append=True) *)
 BeginAppend(frame, f) ==
@@ -201,7 +202,7 @@ BeginAppend(frame, f) ==
   /\ LET part  == IsPartitioned
          parts == FrameSteps(frame, 1, MaxPart(Loaded), ng + 1, part)
          steps == IF SummaryFirst THEN SummarySteps \o parts ELSE parts \o SummarySteps
-     IN Begin("append", steps, model \o FrameGroups(frame, 1, ng + 1, part), TRUE, Loaded)
+     IN Begin("append", steps, model \o FrameGroups(frame, 1, ng + 1, part), TRUE, Loaded, frame)
 
 (* ParquetFile(dir).write_row_groups(frame, sort_key=by partition key | None, sort_pnames) *)
 BeginWrg(frame, bykey, sortp) ==
@@ -212,7 +213,7 @@ BeginWrg(frame, bykey, sortp) ==
      IN Begin("wrg",
               parts \o (IF bykey THEN <<Step("memsort", [how |-> "key"])>> ELSE <<>>)
                     \o (IF sortp THEN <<Step("sortnames", <<>>)>> ELSE <<>>) \o SummarySteps,
-              model \o FrameGroups(frame, 1, ng + 1, part), FALSE, Loaded)
+              model \o FrameGroups(frame, 1, ng + 1, part), FALSE, Loaded, frame)
 
 (* write(dir, frame, append='overwrite'): replace the partitions present in frame *)
 BeginOverwrite(frame) ==
@@ -227,7 +228,7 @@ BeginOverwrite(frame) ==
                         THEN <<Step("memremove", [ks |-> ks, n0 |-> Len(Loaded)]),
                                Step("remove", [ks |-> ks, n0 |-> Len(Loaded)])>> ELSE <<>>)
                     \o <<Step("sortnames", <<>>)>> \o SummarySteps,
-              SelectSeq(model, kept) \o FrameGroups(frame, 1, ng + 1, TRUE), FALSE, Loaded)
+              SelectSeq(model, kept) \o FrameGroups(frame, 1, ng + 1, TRUE), FALSE, Loaded, frame)
 
 (* ParquetFile(dir).remove_row_groups(subset S of positions, sort_pnames) *)
 BeginRemove(Sx, sortp) ==
@@ -239,7 +240,7 @@ BeginRemove(Sx, sortp) ==
      IN Begin("remove",
               <<Step("memremoveg", [gs |-> gs]), Step("removeg", [ps |-> {Loaded[i].p : i \in Sx}])>>
                 \o (IF sortp THEN <<Step("sortnames", <<>>)>> ELSE <<>>) \o SummarySteps,
-              SelectSeq(model, kept), ordered, Loaded)
+              SelectSeq(model, kept), ordered, Loaded, <<>>)
 
 ----------------------------------------------------------------------------
 (* executing one step *)
@@ -253,7 +254,7 @@ DoMkdir ==
   /\ plan # <<>> /\ Cur.c \in {"mkdirroot", "mkdir"} /\ ~FaultNow
   /\ dirs' = IF Cur.c = "mkdir" THEN dirs \cup {Cur.k} ELSE dirs
   /\ calls' = calls + 1 /\ Advance
-  /\ UNCHANGED <<disk, mem, opk, model, pending, ng, nops, faultAt, touched, last, badOpen, early, ordered>>
+  /\ UNCHANGED <<disk, mem, opk, arg, model, pending, ng, nops, faultAt, touched, last, badOpen, early, ordered>>
 
 DoOpenW ==
   /\ plan # <<>> /\ Cur.c = "openw" /\ ~FaultNow
@@ -266,24 +267,24 @@ DoOpenW ==
      /\ touched' = (touched \/ p = META)
      /\ ng' = IF IsPart(p) /\ Cur.g > ng THEN Cur.g ELSE ng
   /\ calls' = calls + 1 /\ Advance
-  /\ UNCHANGED <<dirs, mem, opk, model, pending, nops, faultAt, last, ordered>>
+  /\ UNCHANGED <<dirs, mem, opk, arg, model, pending, nops, faultAt, last, ordered>>
 
 DoWrite ==
   /\ plan # <<>> /\ Cur.c = "write" /\ ~FaultNow
   /\ disk' = IF Cur.p = META THEN [disk EXCEPT ![META].refs = mem] ELSE disk
   /\ calls' = calls + 1 /\ Advance
-  /\ UNCHANGED <<dirs, mem, opk, model, pending, ng, nops, faultAt, touched, last, badOpen, early, ordered>>
+  /\ UNCHANGED <<dirs, mem, opk, arg, model, pending, ng, nops, faultAt, touched, last, badOpen, early, ordered>>
 
 DoClose ==
   /\ plan # <<>> /\ Cur.c = "close" /\ ~FaultNow
   /\ disk' = [disk EXCEPT ![Cur.p].st = "full"]
   /\ calls' = calls + 1 /\ Advance
-  /\ UNCHANGED <<dirs, mem, opk, model, pending, ng, nops, faultAt, touched, last, badOpen, early, ordered>>
+  /\ UNCHANGED <<dirs, mem, opk, arg, model, pending, ng, nops, faultAt, touched, last, badOpen, early, ordered>>
 
 (* an injected I/O failure: the call does not happen, the operation raises *)
 Fault ==
   /\ plan # <<>> /\ FaultNow
-  /\ opk' = "none" /\ plan' = <<>> /\ mem' = <<>>
+  /\ opk' = "none" /\ arg' = <<>> /\ plan' = <<>> /\ mem' = <<>>
   /\ last' = IF touched THEN "faulted_in_summary" ELSE "faulted_before_summary"
   /\ calls' = calls + 1
   \* once the summary rewrite has started the statement promises nothing: whatever a reader finds from now on
@@ -296,7 +297,7 @@ Fault ==
 DoMemAppend ==
   /\ plan # <<>> /\ Cur.c = "memappend"
   /\ mem' = Append(mem, [p |-> Cur.p, g |-> Cur.g]) /\ Advance
-  /\ UNCHANGED <<disk, dirs, opk, model, pending, ng, nops, calls, faultAt, touched, last, badOpen, early, ordered>>
+  /\ UNCHANGED <<disk, dirs, opk, arg, model, pending, ng, nops, calls, faultAt, touched, last, badOpen, early, ordered>>
 
 (* sorted(row_groups, key=sort_key): stable *)
 DoMemSort ==
@@ -310,7 +311,7 @@ DoMemSort ==
          keyK  == [e \in Range(mem) |-> e.p.k]
      IN mem' = IF Cur.how = "overwrite" THEN StableSort(mem, keyOw) ELSE StableSort(mem, keyK)
   /\ Advance
-  /\ UNCHANGED <<disk, dirs, opk, model, pending, ng, nops, calls, faultAt, touched, last, badOpen, early, ordered>>
+  /\ UNCHANGED <<disk, dirs, opk, arg, model, pending, ng, nops, calls, faultAt, touched, last, badOpen, early, ordered>>
 
 (* overwrite: drop the OLD row groups (positions < n0 in the loaded list) whose key is rewritten *)
 OldG(ks, n0) == {disk[META].refs[i].g : i \in {j \in 1..n0 : disk[META].refs[j].p.k \in ks}}
@@ -320,7 +321,7 @@ DoMemRemove ==
          keep(e) == e.g \notin gs
      IN mem' = SelectSeq(mem, keep)
   /\ Advance
-  /\ UNCHANGED <<disk, dirs, opk, model, pending, ng, nops, calls, faultAt, touched, last, badOpen, early, ordered>>
+  /\ UNCHANGED <<disk, dirs, opk, arg, model, pending, ng, nops, calls, faultAt, touched, last, badOpen, early, ordered>>
 
 DoRemove ==
   /\ plan # <<>> /\ Cur.c \in {"remove", "removeg"}
@@ -329,13 +330,13 @@ DoRemove ==
                ELSE Cur.ps
      IN disk' = [p \in DOMAIN disk \ ps |-> disk[p]]
   /\ Advance
-  /\ UNCHANGED <<dirs, mem, opk, model, pending, ng, nops, calls, faultAt, touched, last, badOpen, early, ordered>>
+  /\ UNCHANGED <<dirs, mem, opk, arg, model, pending, ng, nops, calls, faultAt, touched, last, badOpen, early, ordered>>
 
 (* _sort_part_names is planned when reached, from the list as it is then *)
 DoSortNames ==
   /\ plan # <<>> /\ Cur.c = "sortnames"
   /\ plan' = SortNamesSteps(mem) \o Tail(plan)
-  /\ UNCHANGED <<disk, dirs, mem, opk, model, pending, ng, nops, calls, faultAt, touched, last, badOpen, early, ordered>>
+  /\ UNCHANGED <<disk, dirs, mem, opk, arg, model, pending, ng, nops, calls, faultAt, touched, last, badOpen, early, ordered>>
 
 (* os.rename: silently replaces an existing destination *)
 DoRename ==
@@ -343,23 +344,23 @@ DoRename ==
   /\ Cur.src \in DOMAIN disk
   /\ disk' = [p \in (DOMAIN disk \ {Cur.src}) \cup {Cur.dst} |-> IF p = Cur.dst THEN disk[Cur.src] ELSE disk[p]]
   /\ Advance
-  /\ UNCHANGED <<dirs, mem, opk, model, pending, ng, nops, calls, faultAt, touched, last, badOpen, early, ordered>>
+  /\ UNCHANGED <<dirs, mem, opk, arg, model, pending, ng, nops, calls, faultAt, touched, last, badOpen, early, ordered>>
 
 (* the source of a rename does not exist: the real call raises FileNotFoundError in the middle of the operation *)
 DoRenameMissing ==
   /\ plan # <<>> /\ Cur.c = "rename" /\ Cur.src \notin DOMAIN disk
-  /\ opk' = "none" /\ plan' = <<>> /\ mem' = <<>> /\ last' = "crashed"
+  /\ opk' = "none" /\ arg' = <<>> /\ plan' = <<>> /\ mem' = <<>> /\ last' = "crashed"
   /\ UNCHANGED <<disk, dirs, model, pending, ng, nops, calls, faultAt, touched, badOpen, early, ordered>>
 
 DoMemPath ==
   /\ plan # <<>> /\ Cur.c = "mempath"
   /\ mem' = IF Cur.idx \in DOMAIN mem THEN [mem EXCEPT ![Cur.idx].p = Cur.p] ELSE mem
   /\ Advance
-  /\ UNCHANGED <<disk, dirs, opk, model, pending, ng, nops, calls, faultAt, touched, last, badOpen, early, ordered>>
+  /\ UNCHANGED <<disk, dirs, opk, arg, model, pending, ng, nops, calls, faultAt, touched, last, badOpen, early, ordered>>
 
 Return ==
   /\ opk # "none" /\ plan = <<>>
-  /\ opk' = "none" /\ model' = pending /\ last' = "ok" /\ mem' = <<>>
+  /\ opk' = "none" /\ arg' = <<>> /\ model' = pending /\ last' = "ok" /\ mem' = <<>>
   /\ UNCHANGED <<disk, dirs, plan, pending, ng, nops, calls, faultAt, touched, badOpen, early, ordered>>
 
 MaxCalls == 40
